@@ -21,22 +21,27 @@ func (u *UseAssignmentOperator) Fix(fc *FixCandidate, opts *RuntimeOptions) ([]F
 	fixed := false
 
 	for _, loc := range opts.Locations {
-		if loc.Row > len(lines) {
+		if loc.Row < 1 || loc.Row > len(lines) {
 			continue
 		}
 
 		line := lines[loc.Row-1]
 
-		if loc.Column-1 < 0 || loc.Column-1 >= len(line) {
+		// columns are counted in characters, not bytes
+		idx, ok := byteIndexOfColumn(line, loc.Column)
+		if !ok {
 			continue
 		}
 
-		// unexpected character at location column, skipping
-		if line[loc.Column-1] != '=' {
+		// unexpected character at location column, skipping: only a lone '=' is an
+		// assignment, not one that is part of ':=', '==', '!=', '<=' or '>='
+		if line[idx] != '=' ||
+			(idx > 0 && strings.IndexByte(":=!<>", line[idx-1]) >= 0) ||
+			(idx+1 < len(line) && line[idx+1] == '=') {
 			continue
 		}
 
-		lines[loc.Row-1] = line[0:loc.Column-1] + ":" + line[loc.Column-1:]
+		lines[loc.Row-1] = line[0:idx] + ":" + line[idx:]
 		fixed = true
 	}
 
